@@ -399,3 +399,24 @@ def draw_segmentation(rng, total):
         left -= size
 
     return sizes
+
+
+def segments_from(descriptor, total):
+    """Pure function: segmentation descriptor -> list of segment sizes.
+    descriptor: {'sizes': [...]} (explicit, cycled) or {'seed': n}."""
+
+    if 'sizes' in descriptor:
+        sizes = []
+        left = total
+        index = 0
+        pattern = [max(1, int(v)) for v in descriptor['sizes']] or [total]
+
+        while left > 0:
+            size = min(left, pattern[index % len(pattern)])
+            sizes.append(size)
+            left -= size
+            index += 1
+
+        return sizes
+
+    return draw_segmentation(random.Random(descriptor['seed']), total)
